@@ -32,6 +32,10 @@ pub mod verif {
         decode as prefix_string_decode, encode as prefix_string_encode,
         Error as PrefixStringError,
     };
+    // The stateful (dynamic table) encoder and decoder, not yet wired into connections.
+    pub use super::decoder::{ack_header, stream_canceled, Decoder};
+    pub use super::dynamic::DynamicTable;
+    pub use super::encoder::Encoder;
 }
 
 #[derive(Debug)]
